@@ -67,7 +67,8 @@ class RDD:
 
         :param Partition split: a partition
         """
-        return split.x()
+        # an iterator, like the compute() of every derived dataset
+        return iter(split.x())
 
     def partitions(self):
         return self._p
